@@ -1062,8 +1062,20 @@ func fieldName(t types.Type, idx int) string {
 	if !ok || idx >= st.NumFields() {
 		return "?"
 	}
-	return st.Field(idx).Name()
+	name := st.Field(idx).Name()
+	if len(FieldAlias) > 0 {
+		if n := NamedOf(t); n != nil && n.Obj().Pkg() != nil {
+			if a, ok := FieldAlias[n.Obj().Pkg().Path()+"."+TypeCanon(n)+"."+name]; ok {
+				return a
+			}
+		}
+	}
+	return name
 }
+
+// FieldAlias maps "package path.Type.current field name" of a renamed unexported field to the name
+// the rules know it by (filled by the rules' role resolver).
+var FieldAlias = map[string]string{}
 
 // FieldName returns the name of field idx of the struct (or pointer-to-struct) type t.
 func FieldName(t types.Type, idx int) string { return fieldName(t, idx) }
